@@ -5,6 +5,7 @@ import Model.HopLemmas
 import Model.Device
 import Model.Proto.Xreq
 import Model.Proto.RawRecv
+import Model.Proto.RawRecvQuiet
 import Model.DevicePlumb
 namespace Props.C09
 open Model Model.Hop
@@ -310,6 +311,13 @@ theorem xsub_hands_messages_over_whole (s : Proto.RawRecv.State) (hr : Proto.Raw
   have hi := inv.hdr4 x (by simp [Proto.RawRecv.line, hx])
   rw [hk] at hi
   exact List.eq_nil_of_length_eq_zero hi
+
+/-- the progress side, as far as a safety invariant carries it: over every history of XREQ / XSURVEYOR / XSUB a Recv is
+    blocked only when nothing is there for it — no message queued, none held by a receiver, none waiting to be read on
+    any connection (the receivers' internal steps always run to exhaustion, a decreasing measure below the model's fuel) -/
+theorem rawrecv_recv_blocks_only_when_nothing_is_there (s : Proto.RawRecv.State) (hr : Proto.RawRecv.Reach s)
+    (hne : s.parkedRecv ≠ []) : s.recvQ = [] ∧ s.held = [] ∧ s.backlog = [] :=
+  Proto.RawRecv.recv_blocks_only_when_nothing_is_there s hr hne
 
 /-- a body too short to carry an id is read and dropped: it is never queued, held or returned -/
 theorem rawrecv_drops_short_bodies (s : Proto.RawRecv.State) (p : Nat) (b : Bytes) (hs : b.length < s.idLen)
